@@ -249,6 +249,23 @@ func init() {
 			"string fields filled by Bind() into structs (reflection decoders), IP/IPs, FormValue/multipart are outside",
 		},
 	}
+	props["C07"] = PropSpec{
+		ID: "C07",
+		Runs: []HarnessRun{
+			{Rel: ".", Dir: "fiber", Entry: "VH_C07_total", Cases: tierCases(rangeInts(0, 13), rangeInts(0, 13)), Reach: []string{"returned"}, MaxPaths: 200000},
+			{Rel: ".", Dir: "fiber", Entry: "VH_C07_inject", Cases: tierCases([]int{0, 1, 2, 3, 4, 5, 6, 7, 8, 9, 10, 11, 13, 14, 15}, []int{0, 1, 2, 3, 4, 5, 6, 7, 8, 9, 10, 11, 13, 14, 15}), Reach: []string{"serialised"}, MaxPaths: 100000},
+			{Rel: ".", Dir: "fiber", Entry: "VH_C07_guard", Cases: seqCases(2), Reach: []string{"handled", "rejected"}, MaxPaths: 100000},
+		},
+		Bounds: map[string]string{
+			"quick":    "totality: 13 accessor groups (Accepts*, Range, IPs/IP, Subdomains/Hostname, Fresh, Is, Cookies) on header values of every length 1..3/4/5 (Range, Cache-Control: 8) over the bytes fasthttp admits (decimal digits restricted to 0/1 in Accept*/Range, 7-bit bytes for Host); injection: 15 response-helper sinks with an arbitrary 1..3 byte argument (any byte incl. CR, LF, NUL) serialised by fasthttp's real header writer; entry guard: symbolic method of 1..5 bytes against the default and a custom method set. Allocation of the flash decoder is covered by C12's hostile-cookie harness.",
+			"thorough": "same as quick",
+		},
+		Assumptions: []string{
+			"bytes -> fasthttp.Request wire parsing, multipart, keep-alive and decompressors are outside; requests enter through fasthttp's header/URI setters",
+			"'well-formed reply' is reduced to: the serialised header block has the same number of lines as for a benign argument of the same length",
+			"a panic anywhere in the accessor (an implicit obligation of the engine: bounds, nil, division, type assertion) is the violation of the totality slice",
+		},
+	}
 	props["SMOKEFAIL"] = PropSpec{
 		ID: "SMOKEFAIL",
 		Runs: []HarnessRun{
